@@ -422,6 +422,10 @@ pub fn run(ctx: &Ctx) -> Outcome {
             }
             check_array_conversions(rep);
             check_frames_at_thread_exit(rep);
+            for (a, t, d) in refs::coincidence_frames() {
+                check_frame(a, t, &d, rep);
+                rep.count("coincidence_frames");
+            }
             // lengths around every multiple of 2^8 / 2^16 / 2^24 (and, thorough tier, 2^32): a length that is compared
             // after being narrowed passes exactly there
             let mut wraps: Vec<usize> = vec![];
@@ -480,6 +484,7 @@ pub fn run(ctx: &Ctx) -> Outcome {
         floor("frames with the largest possible byte sums", report.get("largest_byte_sums") == 480 * 3, report.get("largest_byte_sums")),
         floor("Data::from(&[u8; N]) probed for N = 4, 5, 255, 256 (present for 4 on the pinned API)", report.get("array_conversions_probed") == 4 && report.get("array_conversions_present") >= 1, report.get("array_conversions_present")),
         floor("frames encoded from a thread-local destructor at thread exit (both creation orders)", report.get("frames_encoded_at_thread_exit") == 2, report.get("frames_encoded_at_thread_exit")),
+        floor("frames whose fields coincide (all fields one value, for every value; checksum equal to another field or to a syntax byte)", report.get("coincidence_frames") == 2240, report.get("coincidence_frames")),
         floor("try_new lengths incl. > 255", report.get("try_new_over_255_tried") >= 47, report.get("try_new_over_255_tried")),
         floor("try_new lengths around the multiples of 2^8, 2^16, 2^24 (thorough: 2^32)", report.get("try_new_wrap_lengths_tried") >= 40, report.get("try_new_wrap_lengths_tried")),
         floor("frame with address >= 0x8000", report.get("frames_addr_ge_8000") > 0, report.get("frames_addr_ge_8000")),
